@@ -1,0 +1,75 @@
+//go:build verif
+// +build verif
+
+package vbft
+
+import (
+	"github.com/polynetwork/poly/common"
+	vconfig "github.com/polynetwork/poly/consensus/vbft/config"
+)
+
+// VerifPool wraps a real BlockPool wired to a minimal Server (no network, no ledger).
+type VerifPool struct {
+	Pool *BlockPool
+	Srv  *Server
+}
+
+func VerifNewPool(n, c uint32, self uint32, peers []*vconfig.PeerConfig, proposers, endorsers, committers []uint32) (*VerifPool, error) {
+	srv := &Server{Index: self}
+	srv.config = &vconfig.ChainConfig{N: n, C: c, Peers: peers}
+	srv.peerPool = NewPeerPool(int(n), srv)
+	for _, p := range peers {
+		if err := srv.peerPool.addPeer(p); err != nil {
+			return nil, err
+		}
+		srv.peerPool.peers[p.Index].connected = true
+	}
+	srv.chainStore = &ChainStore{chainedBlockNum: 0, pendingBlocks: make(map[uint32]*PendingBlock)}
+	srv.currentParticipantConfig = &BlockParticipantConfig{BlockNum: 1, ChainConfig: srv.config, Proposers: proposers, Endorsers: endorsers, Committers: committers}
+	pool := &BlockPool{server: srv, HistoryLen: 64, chainStore: srv.chainStore, candidateBlocks: make(map[uint32]*CandidateInfo)}
+	srv.blockPool = pool
+	return &VerifPool{Pool: pool, Srv: srv}, nil
+}
+
+func (v *VerifPool) Endorse(blk, endorser, proposer uint32, forEmpty bool, sig []byte) error {
+	return v.Pool.newBlockEndorsement(&blockEndorseMsg{Endorser: endorser, EndorsedProposer: proposer, BlockNum: blk, EndorseForEmpty: forEmpty, EndorserSig: sig})
+}
+
+func (v *VerifPool) Commit(blk, committer, proposer uint32, hash common.Uint256, forEmpty bool, endorsers map[uint32][]byte, sig []byte) error {
+	return v.Pool.newBlockCommitment(&blockCommitMsg{Committer: committer, BlockProposer: proposer, BlockNum: blk, CommitBlockHash: hash, CommitForEmpty: forEmpty, EndorsersSig: endorsers, CommitterSig: sig})
+}
+
+func (v *VerifPool) EndorseDone(blk uint32) (uint32, bool, bool) { return v.Pool.endorseDone(blk, v.Srv.config.C) }
+func (v *VerifPool) CommitDone(blk uint32) (uint32, bool, bool) {
+	return v.Pool.commitDone(blk, v.Srv.config.C, v.Srv.config.N)
+}
+func (v *VerifPool) EndorseSigs(blk uint32) map[uint32][]*CandidateEndorseSigInfo {
+	c := v.Pool.candidateBlocks[blk]
+	if c == nil {
+		return nil
+	}
+	return c.EndorseSigs
+}
+
+// VerifCalcParticipantPeers exposes calcParticipantPeers for a given vrf value and chain config.
+func VerifCalcParticipantPeers(vrf vconfig.VRFValue, chain *vconfig.ChainConfig, start, end int) []uint32 {
+	return calcParticipantPeers(&BlockParticipantConfig{Vrf: vrf, ChainConfig: chain}, chain, start, end)
+}
+
+// VerifCalcParticipant exposes calcParticipant.
+func VerifCalcParticipant(vrf vconfig.VRFValue, dposTable []uint32, k uint32) uint32 {
+	return calcParticipant(vrf, dposTable, k)
+}
+
+// VerifCommitConsensus exposes getCommitConsensus over (committer, proposer, forEmpty, endorser list) tuples.
+func VerifCommitConsensus(committers, proposers []uint32, endorsers [][]uint32, C, N int) (uint32, bool) {
+	msgs := make([]*blockCommitMsg, 0, len(committers))
+	for i := range committers {
+		es := make(map[uint32][]byte)
+		for _, e := range endorsers[i] {
+			es[e] = []byte{1}
+		}
+		msgs = append(msgs, &blockCommitMsg{Committer: committers[i], BlockProposer: proposers[i], EndorsersSig: es})
+	}
+	return getCommitConsensus(msgs, C, N)
+}
